@@ -32,6 +32,9 @@ def states(tier, seed):
         st.append(dict(part="perf", ns=ns, sym=sym, user_sref=usr, flight=list(fl), perf=list(pf), k=k, fam=fam))
     for ns, sym, k in itertools.product([1, 2, 3], [False, True], [0, 1, 2]):
         st.append(dict(part="lw", ns=ns, sym=sym, k=k, fam=fam))
+    # CM through the public groups: first surface cambered with nx >= 3 (camber-line length != chord), second surface flat
+    for grp, sym, pf, nx in itertools.product(["AeroPoint", "AerostructPoint"], [False, True], ["camber", "twdi"], [3, 4]):
+        st.append(dict(part="cmgroup", group=grp, sym=sym, pf=pf, nx=nx, fam=fam))
     alts = list(range(-1000, 150001, 1000))
     pts = []
     for a in alts:
@@ -139,6 +142,44 @@ def part_perf(s):
         if not e <= TOL:
             viol.append(dict(sig=dict(oracle="defining_identity", observable=k, sym=s["sym"], user_sref=s["user_sref"]), msg="%s = %s but the defining identity gives %s (rel %.2e)" % (k, np.array2string(g, precision=10), np.array2string(w, precision=10), e), measure=float(e)))
     return dict(viol=viol, nontrivial=True, digest=digest_arrays(*[np.atleast_1d(v) for v in got.values()]), transitions=1, validated=val)
+
+
+def part_cmgroup(s):
+    fam, sym = s["fam"], s["sym"]
+    side = "left" if sym else "full"
+    m = gen.make_mesh(s["pf"], s["nx"], 3 if sym else 5, side, fam, asym=not sym, span=10.0, chord=1.6)
+    if s["pf"] == "camber":
+        xi = np.linspace(0, 1, s["nx"])[:, None]
+        m[:, :, 2] += 0.1 * 4 * xi * (1 - xi) * (m[-1, :, 0] - m[0, :, 0])[None, :]  # 10 % extra camber
+    m2 = gen.make_mesh("rect", 2, 2 if sym else 3, side, fam, span=3.0, chord=0.8, offset=[6.0, 0.0, 0.7])
+    rho, v = 0.9, 100.0
+    if s["group"] == "AeroPoint":
+        p = builders.build_aero([builders.aero_surface("wing", m, sym), builders.aero_surface("tail", m2, sym)], dict(v=v, alpha=4.0, rho=rho, cg=[0.5, 0.0, 0.1]))
+        p.run_model()
+        pre, mesh1 = "ap.", m
+        Sn = ["ap.wing.S_ref", "ap.tail.S_ref"]
+        wn = "ap.wing.widths"
+    else:
+        s1 = builders.struct_surface("wing", m, sym, "tube", with_viscous=True)
+        s2 = builders.struct_surface("tail", m2, sym, "tube", with_viscous=True, thickness_cp=np.array([0.01, 0.012]))
+        p = builders.build_aerostruct([s1, s2], dict(Mach_number=0.5, W0=2.0e3, v=v, rho=rho, alpha=4.0, speed_of_sound=200.0, R=2.0e6, load_factor=1.0))
+        builders.tighten(p, nl="default", lin="default")
+        p.run_model()
+        pre, mesh1 = "AS_point_0.", np.array(p["AS_point_0.coupled.wing.def_mesh"])
+        Sn = ["AS_point_0.coupled.wing.S_ref", "AS_point_0.coupled.tail.S_ref"]
+        wn = "AS_point_0.coupled.wing.widths"
+    S = [float(p[n][0]) for n in Sn]
+    ch = np.linalg.norm(mesh1[-1] - mesh1[0], axis=1)  # straight leading-edge to trailing-edge distance
+    w = np.array(p[wn])
+    mac = np.sum((0.5 * (ch[1:] + ch[:-1])) ** 2 * w) / S[0] * (2.0 if sym else 1.0)
+    M = np.array(p[pre + "total_perf.moment.M"])
+    want = M / (0.5 * rho * v * v * sum(S) * mac)
+    got = np.array(p[pre + "CM"])
+    e = np.abs(got - want).max() / max(np.abs(want).max(), 1e-12)
+    viol = []
+    if not e <= 1e-10:
+        viol.append(dict(sig=dict(oracle="defining_identity", observable="CM", group=s["group"], through_group=True), msg="%s: CM = %s but M / (q S_ref_total MAC of the first surface) = %s (rel %.2e)" % (s["group"], np.array2string(got, precision=8), np.array2string(want, precision=8), e), measure=float(e)))
+    return dict(viol=viol, nontrivial=bool(np.abs(M).max() > 1e-6), digest=digest_arrays(got), transitions=1, validated=1)
 
 
 def part_lw(s):
